@@ -209,6 +209,10 @@ func c17Decoder(c *Ctx) {
 	okHook := false
 	if h, ok := f["DecodeHook"]; ok {
 		okHook = DerivesOnly(h, false, func(v ssa.Value) bool {
+			// what compileHooks() hands back (it returns the compiled chain) ...
+			if cl, _ := CallOfValue(v); cl != nil && MatchCC(&cl.Call, Spec{"./core/config", "", "compileHooks"}) {
+				return true
+			}
 			u, ok := v.(*ssa.UnOp)
 			if !ok {
 				return false
